@@ -443,7 +443,7 @@ func runC18(c *Ctx) {
 		panic("C18: cannot load the golden corpus: " + err.Error())
 	}
 	follow := goldenAlphabet()
-	follow = append(follow, Op{Op: "delall"}, Op{Op: "sdel", Field: "A", Cmp: ">=", Probe: 2}, Op{Op: "create"})
+	follow = append(follow, Op{Op: "delall"}, Op{Op: "sdel", Field: "A", Cmp: ">=", Probe: 2}, Op{Op: "create"}, Op{Op: "createflip"})
 	for ei := range corpus.Entries {
 		if ei%c.NShards != c.Shard {
 			continue
@@ -480,6 +480,26 @@ func runC18(c *Ctx) {
 				w.Apply(op)
 				if len(w.Viol) > 0 {
 					return
+				}
+				if op.Op == "createflip" || op.Op == "create" {
+					// re-creation preserves the data on the live handle too, also after a write
+					w.SweepBasic()
+					if len(w.Slots) > 0 && len(w.M.Objs) > 0 {
+						for si, u := range w.Slots {
+							if m, ok := w.M.Objs[u]; ok {
+								// re-save a stored object with its own values (a write after the re-creation)
+								r := cloneRec(m)
+								r.Initialize(u)
+								if err := w.DB.InsertOrUpdate(r); err != nil {
+									w.fail("write-after-recreate", fmt.Sprintf("re-saving slot %d after Create failed: %v", si, err))
+								}
+								break
+							}
+						}
+					}
+					if len(w.Viol) > 0 {
+						return
+					}
 				}
 				if err := w.DB.Close(); err != nil {
 					w.fail("golden-close", "Close failed: "+err.Error())
